@@ -441,6 +441,14 @@ Y = YOTTA = Prefix.YOTTA
 UNIT = Prefix.UNIT
 
 
+def _times_pow10(number: Decimal, exp: Decimal) -> Decimal:
+    """`number * 10**exp`. Exact whenever `exp` is integral, which is the case for all `Exponent`s made of `Prefix`es."""
+    exp = Decimal(exp)
+    if exp == exp.to_integral_value():
+        return _EXACT.scaleb(number, int(exp))
+    return number * Decimal(10) ** exp
+
+
 @dataclass
 class Exponent:
     """
@@ -473,7 +481,7 @@ class Exponent:
 
         elif isinstance(other, (str, int, float, Decimal)):
             return Prefixed.new(
-                Decimal(str(other)) * Decimal(10) ** self.residual, self.symbol
+                _times_pow10(Decimal(str(other)), self.residual), self.symbol
             )
 
         return NotImplemented
@@ -483,7 +491,7 @@ class Exponent:
         if isinstance(other, (str, int, float, Decimal)):
             # 16 * Exponent(Symbol.UNIT,0.25) == 2 * Prefix.UNIT
 
-            out_number = Decimal(str(other)) * Decimal(10) ** self.residual
+            out_number = _times_pow10(Decimal(str(other)), self.residual)
 
             return Prefixed.new(out_number, self.symbol)
 
